@@ -90,6 +90,28 @@ def rows_of(t, a):
     return [[int(x), int(y), int(z)] for x, y, z in zip(a["time"], strax.endtime(a), a[f"id_{t}"])]
 
 
+def targets_of(target):
+    """a request is one data type or several same-kind ones joined by `,` (get_array(run, (a, b)) merges them)"""
+    return target.split(",")
+
+
+def rows_multi(tgts, a):
+    """rows of a (merged) result: [time, endtime, id of tgts[0], id of tgts[1], …]"""
+    cols = [a[f"id_{t}"] for t in tgts]
+    return [[int(x), int(y)] + [int(c[i]) for c in cols] for i, (x, y) in enumerate(zip(a["time"], strax.endtime(a)))]
+
+
+def show_line(tgts, rows):
+    return " | ".join(",".join(str(r[2 + k]) for r in rows) if rows else "-" for k in range(len(tgts)))
+
+
+def expected_rows(exp, tgts):
+    first = exp[tgts[0]]
+    if any(len(exp[t]) != len(first) for t in tgts):
+        return None
+    return [list(first[i][:2]) + [exp[t][i][2] for t in tgts] for i in range(len(first))]
+
+
 def _out(self, t, time, endtime, ids):
     r = np.zeros(len(time), self.dtype_for(t))
     r["time"] = time
@@ -293,7 +315,8 @@ def check_tiling(chunks, span, what):
         if prev is not None and a != prev:
             return f"{what}: chunk starts at {a} but the previous one ended at {prev} (not contiguous)"
         prev = b
-        for t, e, _i in rows:
+        for r in rows:
+            t, e = r[0], r[1]
             if not (a <= t and e <= b):
                 return f"{what}: row [{t},{e}) is not wholly inside its chunk [{a},{b})"
             if last_t is not None and t < last_t:
@@ -319,17 +342,9 @@ def needed(case, stored, target):
         if t in prov:
             for d in prov[t]["deps"]:
                 visit(d)
-    visit(target)
+    for t in targets_of(target):
+        visit(t)
     return loaders, computed
-
-
-def d13_shape(case, stored, target):
-    """a multi-output plugin runs while one of its outputs is fed by a loader"""
-    loaders, computed = needed(case, stored, target)
-    for n in case["nodes"]:
-        if len(n["outs"]) > 1 and set(n["outs"]) & computed and set(n["outs"]) & loaders:
-            return "+".join(sorted(set(n["outs"]) & loaders)) + "/" + "+".join(sorted(set(n["outs"]) & computed))
-    return None
 
 
 def two_kind_nodes(case, stored, target):
@@ -367,12 +382,20 @@ def _threaded_phase(case, res):
     return cfg["proc"] == "threaded_mailbox"
 
 
+def _lazy_phase(case, res):
+    """the mailboxes are lazy only with allow_lazy and without executors (max_workers None / 1)"""
+    cfg = case["prep_cfg"] if res["phase"] == "prep" else case["cfg"]
+    return cfg["proc"] == "threaded_mailbox" and cfg["lazy"] and cfg["workers"] in (None, 1)
+
+
 def run_case(case):
     """run the case; triage an error of the threaded processor before it is judged:
     (1) the same case under the single-thread processor gives the root cause (an exception raised inside a plugin
         thread reaches the caller late or as `Thread … did not terminate`, which is C06's business);
-    (2) a mailbox timeout that has no root cause is tried once more with a timeout of at least 120 s, so that a stall of
-        the machine is not reported as a deadlock (a genuine deadlock times out again and is reported)."""
+    (2) a mailbox timeout that has no root cause is tried once more with three times the timeout (at least 75 s), so that a stall of
+        the machine is not reported as a deadlock (a genuine deadlock times out again and is reported);
+    (3) in lazy mode the case is first run with allow_lazy=False (open finding: lazy-mode deadlock of a multi-output
+        plugin whose outputs are both needed)."""
     res = run_case_once(case)
     if res["phase"] == "adapter" or not res["line"].startswith("err") or not _threaded_phase(case, res):
         return res
@@ -381,14 +404,33 @@ def run_case(case):
     root = run_case_once(single)
     res["root_exc"] = root["exc"] if root["line"].startswith("err") else None
     if res["root_exc"] is None and any(k in (res["exc"] or "") for k in TIMEOUTISH):
+        if _lazy_phase(case, res):
+            # (3) a timeout in lazy mode: the same case with allow_lazy=False tells a lazy-mode deadlock apart (a
+            # lazy-mode deadlock always takes the full timeout, so this comes before the long retry)
+            eager = json.loads(json.dumps(case))
+            eager["cfg"]["lazy"] = eager["prep_cfg"]["lazy"] = False
+            res["eager_ok"] = not run_case_once(eager)["line"].startswith("err")
+            if res["eager_ok"] and _both_outputs_needed(case, res):
+                return res
         slow = json.loads(json.dumps(case))
         for key in ("cfg", "prep_cfg"):
-            slow[key]["timeout"] = max(120, 4 * slow[key]["timeout"])
+            slow[key]["timeout"] = max(75, 3 * slow[key]["timeout"])
         again = run_case_once(slow)
         again["retried_after"] = res["exc"]
         again["root_exc"] = None
+        again["eager_ok"] = res.get("eager_ok")
         return again
     return res
+
+
+def _both_outputs_needed(case, res):
+    if res["phase"] == "prep":
+        step = res["prep"][-1]
+        stored, tgt = set(step["stored_before"]), step["target"]
+    else:
+        stored, tgt = set(case["stored"]), case["target"]
+    _, computed = needed(case, stored, tgt)
+    return [n for n in case["nodes"] if len(n["outs"]) > 1 and len(set(n["outs"]) & computed) > 1]
 
 
 def run_case_once(case):
@@ -425,14 +467,15 @@ def run_case_once(case):
             # ---- the run under test
             cfg = case["cfg"]
             st = new_context(case, d, cfg, build_classes(case))
-            tgt = case["target"]
+            tgts = targets_of(case["target"])
+            tgt = tgts[0] if len(tgts) == 1 else tuple(tgts)
             t0 = time.time()
             if case["mode"] == "array":
                 arr, err = _guard(lambda: st.get_array(RUN, tgt, max_workers=cfg["workers"], processor=cfg["proc"],
                                                        progress_bar=False))
-                rows = rows_of(tgt, arr) if err is None else None
+                rows = rows_multi(tgts, arr) if err is None else None
             else:
-                chunks, err = _guard(lambda: [_chunk_tuple(tgt, c) for c in
+                chunks, err = _guard(lambda: [[int(c.start), int(c.end), rows_multi(tgts, c.data)] for c in
                                               st.get_iter(RUN, tgt, max_workers=cfg["workers"], processor=cfg["proc"],
                                                           progress_bar=False)])
                 rows = [r for c in chunks for r in c[2]] if err is None else None
@@ -442,7 +485,7 @@ def run_case_once(case):
                 res.update(line="err " + err[0], exc=err[1])
                 return res
             res["rows"] = rows
-            res["line"] = "ok " + sl.show_ids(rows)
+            res["line"] = "ok " + show_line(tgts, rows)
             # ---- whatever is in storage now, re-read by a fresh context
             fresh = new_context(case, d, dict(cfg, lazy=True, mm=4), build_classes(case))
             for t in case["kinds"]:
@@ -465,7 +508,7 @@ UNFETCHED = "terminated without fetching last"
 
 
 def shape_of(msg):
-    for tag in ("D9-shape", "D13-shape", "D16-shape"):
+    for tag in ("D9-shape", "D16-shape", "LZ-shape"):
         if msg and msg.startswith(tag):
             return tag
     return None
@@ -483,39 +526,29 @@ def trailing_zero(case, phases):
 
 def multi_dep_nodes(case, stored, target):
     _, computed = needed(case, stored, target)
-    return [n for n in case["nodes"] if set(n["outs"]) & computed and len(n["deps"]) > 1]
+    multi = [n for n in case["nodes"] if set(n["outs"]) & computed and len(n["deps"]) > 1]
+    # several targets are merged by a temporary MergeOnlyPlugin that depends on all of them
+    return multi + (["temporary merge plugin"] if len(targets_of(target)) > 1 else [])
 
 
 def judge(case, res):
-    """None if the property holds on this run, else a message.  Messages starting with `D9-shape` / `D13-shape` /
-    `D16-shape` are built only when the failure has exactly the shape of the corresponding open defect."""
+    """None if the property holds on this run, else a message.  Messages starting with `D9-shape` / `D16-shape` are built
+    only when the failure has exactly the shape of the corresponding open defect.  (D13 is fixed in /repo: a failure
+    of a multi-output plugin with a loader-fed sibling under the threaded processor is an ordinary violation again.)"""
     if res["phase"] == "adapter":
         raise RuntimeError("adapter crashed: " + str(res["exc"]))
     if res["expect"] is None:
         raise RuntimeError("oracle crashed: " + str(res["oracle_exc"]))
-    threaded = lambda cfg: cfg["proc"] == "threaded_mailbox"   # noqa: E731
     if res["phase"] == "prep":
         step = res["prep"][-1]
         cfg, stored, tgt, where = case["prep_cfg"], set(step["stored_before"]), step["target"], f"twin context making {step['target']}"
     else:
         cfg, stored, tgt, where = case["cfg"], set(case["stored"]), case["target"], f"{case['mode']} of {case['target']}"
-    msg = _judge(case, res, cfg, stored, tgt, where)
-    if msg is None or shape_of(msg):
-        return msg
-    # D13: under the threaded processor a multi-output plugin whose sibling output is fed by a loader has two senders on
-    # that mailbox; what goes wrong depends on the interleaving (message-number clash -> TypeError, send after the
-    # loader closed -> MailBoxAlreadyClosed, …).  The single-thread processor must be fine on the same case.
-    shape13 = d13_shape(case, stored, tgt) if threaded(cfg) else None
-    if shape13 and res.get("root_exc") is None:
-        return (f"D13-shape: {where}: threaded_mailbox, multi-output plugin with stored/recomputed outputs {shape13} "
-                f"(two senders on the loader-fed mailbox): {msg}")
-    return msg
+    return _judge(case, res, cfg, stored, tgt, where)
 
 
 def _judge(case, res, cfg, stored, tgt, where):
     exp = res["expect"]
-    # the mailboxes are lazy only without executors (max_workers None / 1) and with allow_lazy
-    threaded = lambda c: c["proc"] == "threaded_mailbox" and c["lazy"] and c["workers"] in (None, 1)   # noqa: E731
     line, exc = res["line"], (res["exc"] or "") + " | root cause under single_thread: " + str(res.get("root_exc"))
     if line.startswith("err"):
         if TEN_PASS in exc and two_kind_nodes(case, stored, tgt):
@@ -525,18 +558,20 @@ def _judge(case, res, cfg, stored, tgt, where):
         if UNFETCHED in exc and multi_dep_nodes(case, stored, tgt) and trailing_zero(case, phases):
             return (f"D16-shape: {where}: a stream ends with a zero-duration chunk and Plugin.iter of a plugin with several "
                     f"dependencies raised RuntimeError 'terminated without fetching last' instead of returning the whole-run rows")
+        both = _both_outputs_needed(case, res)
+        if (res.get("eager_ok") and res.get("root_exc") is None and _lazy_phase(case, res) and both
+                and any(k in exc for k in ("MailboxReadTimeout", "did not terminate"))):
+            return (f"LZ-shape: {where}: lazy threaded_mailbox, both outputs {'+'.join(both[0]['outs'])} of a multi-output plugin are "
+                    f"needed and one consumer runs ahead of the other: MailboxReadTimeout (deadlock; the same case with "
+                    f"allow_lazy=False and with the single-thread processor returns the whole-run rows)")
         return f"{where} raised {exc[:300]} instead of returning the whole-run rows"
-    # prep steps that succeeded but crawled to the mailbox timeout (lazy D13) are judged too
-    for step in res["prep"]:
-        if step["err"] is None and step["elapsed"] >= case["prep_cfg"]["timeout"] - 0.5 and threaded(case["prep_cfg"]):
-            s13 = d13_shape(case, set(step["stored_before"]), step["target"])
-            if s13:
-                return (f"D13-shape: twin context making {step['target']}: threaded_mailbox lazy, multi-output plugin with "
-                        f"stored/recomputed outputs {s13}: finished only after the mailbox timeout ({step['elapsed']} s)")
-    want = exp[tgt]
+    tgts = targets_of(tgt)
+    want = expected_rows(exp, tgts)
+    if want is None:
+        raise RuntimeError("generator bug: targets of one request are not of one kind")
     if res["rows"] != want:
-        return (f"{where}: returned rows differ from the whole-run computation: got ids {sl.show_ids(res['rows'])[:120]} "
-                f"expected {sl.show_ids(want)[:120]}")
+        return (f"{where}: returned rows differ from the whole-run computation: got {len(res['rows'])} rows, ids "
+                f"{show_line(tgts, res['rows'])[:120]}; expected {len(want)} rows, ids {show_line(tgts, want)[:120]}")
     if res["chunks"] is not None:
         m = check_tiling([(a, b, rows) for a, b, rows in res["chunks"]], case["span"], f"chunks yielded for {tgt}")
         if m:
@@ -551,11 +586,6 @@ def _judge(case, res, cfg, stored, tgt, where):
         m = check_tiling([(a, b, rows) for a, b, rows in rec["chunks"]], case["span"], what)
         if m:
             return m
-    if res["elapsed"] >= cfg["timeout"] - 0.5 and threaded(cfg):
-        shape13 = d13_shape(case, stored, tgt)
-        if shape13:
-            return (f"D13-shape: {where}: threaded_mailbox lazy, multi-output plugin with stored/recomputed outputs {shape13}: "
-                    f"correct rows only after the mailbox timeout ({res['elapsed']:.0f} s)")
     return None
 
 
@@ -629,16 +659,22 @@ def reconvergent(nodes):
 def gen_case(rng, quick=True, force=None):
     """one random case; `force` may pin {'brick': bool, 'd13': bool}"""
     force = force or {}
-    n_src = 2 if force.get("brick") else rng.choice([1, 1, 2])
+    n_src = 2 if force.get("brick") else (1 if (force.get("ovl") or force.get("exh")) else rng.choice([1, 1, 2]))
+    ovl_w = rng.choice([5, 10, 20]) if force.get("ovl") else None
     kinds, disjoint, root = {}, {}, {}
     srcs = []
     if force.get("brick"):
         ra, rb = brick_sources(rng)
         src_rows = [ra, rb]
         dis = [True, True]
+    elif force.get("ovl"):
+        # short rows on a regular grid: every row has neighbours inside the window, every integer time is a valid cut
+        step = rng.choice([2, 3, 4])
+        src_rows = [[(step * i, step * i + 1, i) for i in range(rng.randint(20, 60))]]
+        dis = [True]
     else:
         dis = [rng.random() < 0.6 for _ in range(n_src)]
-        src_rows = [gen_source_rows(rng, rng.randint(0, 14), dis[0])]
+        src_rows = [gen_source_rows(rng, rng.randint(2, 14) if force.get("exh") else rng.randint(0, 14), dis[0])]
         if n_src == 2:
             inside = src_rows[0] if (src_rows[0] and rng.random() < 0.5) else None
             src_rows.append(gen_source_rows(rng, rng.randint(0, 14), dis[1], inside=inside))
@@ -657,7 +693,23 @@ def gen_case(rng, quick=True, force=None):
         def chunking():
             style = rng.choice(["random", "random", "one", "tiny", "brick"] if force.get("brick") else
                                ["random", "random", "random", "one", "tiny"])
-            if style == "one":
+            if force.get("ovl"):
+                style = "short-interior"
+            if force.get("exh") and style == "one":
+                style = "tiny"
+            if style == "short-interior":
+                # >= 3 chunks, interior chunks shorter than about three windows (where an overlap-window plugin has to
+                # reach back over more than one chunk)
+                cuts, t = [t0], t0 + rng.randint(1, max(1, (t1 - t0) // 2))
+                for _ in range(rng.randint(1, 4)):
+                    if t >= t1:
+                        break
+                    cuts.append(t)
+                    t += rng.randint(1, 3 * ovl_w + 2)
+                cuts += sorted(x for x in {rng.randint(t0, t1) for _ in range(rng.randint(0, 3))} if x > cuts[-1])
+                cuts.append(t1)
+                ch = gen.chunk_rows(rows, [c for c in cuts if c <= t1])
+            elif style == "one":
                 ch = gen.chunk_rows(rows, [t0, t1])
             elif style == "tiny":
                 ch = gen.random_chunking(rng, rows, t0, t1, p_cut=0.9, p_dup=0.15)
@@ -678,7 +730,7 @@ def gen_case(rng, quick=True, force=None):
     # ---- derived nodes
     nodes = []
     n_types = n_src
-    want_types = rng.randint(2, 6) if not force.get("d13") else rng.randint(4, 6)
+    want_types = rng.randint(4, 6) if force.get("d13") else (rng.randint(3, 6) if force.get("brick") else rng.randint(2, 6))
     types = [s["name"] for s in srcs]
     counter = [0]
 
@@ -696,6 +748,19 @@ def gen_case(rng, quick=True, force=None):
             root[o] = set().union(*[root[d] for d in deps])
             types.append(o)
 
+    exh_pair = None
+    if force.get("ovl"):
+        add("overlap", ["sa"], [fresh()], ["sa"], [True], w=ovl_w)
+    if force.get("exh"):
+        # a row-wise (or down-chunking) plugin and an exhaust plugin read the same source
+        x, y = fresh(), fresh()
+        if rng.random() < 0.7:
+            add("map", ["sa"], [x], ["sa"], [disjoint["sa"]], c=rng.randint(0, 9))
+        else:
+            add("downchunk", ["sa"], [x], ["sa"], [disjoint["sa"]], c=rng.randint(0, 9), k=rng.randint(1, 3))
+        add("exhaust", ["sa"], [y], ["sa"], [disjoint["sa"]], c=rng.randint(0, 9))
+        exh_pair = [x, y] if rng.random() < 0.6 else [y, x]
+        want_types = max(want_types, 4)
     guard = 0
     first = True
     while len(types) < want_types and guard < 60:
@@ -757,9 +822,21 @@ def gen_case(rng, quick=True, force=None):
         add("pairfirst", [x, y], [o], [kinds[x]], [disjoint[x]], c=rng.randint(0, 9))
         derived.append(o)
         target = o
+    if exh_pair:
+        if rng.random() < 0.5:
+            target = ",".join(exh_pair)                       # one request for both: temporary MergeOnlyPlugin
+        else:
+            o = fresh()
+            add("merge", exh_pair, [o], [kinds[exh_pair[0]]], [disjoint[exh_pair[0]]])
+            derived.append(o)
+            target = o
+    elif not force and rng.random() < 0.12:
+        pairs = [(x, y) for x in derived for y in derived if x != y and kinds[x] == kinds[y]]
+        if pairs:
+            target = ",".join(rng.choice(pairs))
     # ---- what is already stored
     prov = {o: n for n in nodes for o in n["outs"]}
-    anc, stack = set(), [target]
+    anc, stack = set(), targets_of(target)
     while stack:
         t = stack.pop()
         if t in prov:
@@ -770,7 +847,7 @@ def gen_case(rng, quick=True, force=None):
     inter = [t for t in derived if t in anc]
     p_store = rng.choice([0.0, 0.3, 0.5, 0.8])
     stored = [t for t in inter if rng.random() < p_store]
-    if rng.random() < 0.05:
+    if rng.random() < 0.05 and "," not in target:
         stored.append(target)
     if force.get("d13"):
         stored = [nodes[0]["outs"][rng.randint(0, 1)]]
@@ -780,6 +857,8 @@ def gen_case(rng, quick=True, force=None):
         proc = rng.choice(["single_thread", "threaded_mailbox", "threaded_mailbox"])
         if force.get("d13") and not is_prep:
             proc = "threaded_mailbox"
+        if force.get("exh") and not is_prep and rng.random() < 0.6:
+            proc = "single_thread"
         cfg = dict(proc=proc, workers=rng.choice([None, 1, 2, 4]), lazy=rng.random() < 0.5, mm=rng.randint(2, 6),
                    rechunk=rng.random() < 0.7, timeout=rng.choice([20, 25, 30]))
         return cfg
@@ -790,11 +869,28 @@ def gen_case(rng, quick=True, force=None):
     # exhaust plugin, by (2w+1)/chunk-duration chunks behind an overlap window, by as many chunks as a coarser
     # dependency spans when two differently chunked streams are aligned.  Below that capacity the mailboxes deadlock
     # (D10, C06); the property quantifies over capacities above the lag only.
-    if reconvergent(nodes):
+    tl = targets_of(target)
+    if reconvergent(nodes + ([dict(deps=tl, outs=["_temp"])] if len(tl) > 1 else [])):
         bound = 2 + max(len(s[key]) for s in srcs for key in ("chunks", "prep_chunks")) + sum(len(s["rows"]) for s in srcs)
         for cfg in (case["cfg"], case["prep_cfg"]):
             cfg["mm"] = max(cfg["mm"], bound)
+    # a quarter of the cases live at epoch scale (ns since 1970): beyond 2**53, where float64 arithmetic that crept in
+    # somewhere would no longer be exact
+    if force.get("shift", rng.random() < 0.25):
+        shift_case(case, EPOCH_T0)
     return case
+
+
+EPOCH_T0 = 1_700_000_000_000_000_137
+
+
+def shift_case(case, dt):
+    for s in case["srcs"]:
+        s["rows"] = [[a + dt, b + dt, i] for a, b, i in s["rows"]]
+        for key in ("chunks", "prep_chunks"):
+            s[key] = [[a + dt, b + dt, [[x + dt, y + dt, i] for x, y, i in rows]] for a, b, rows in s[key]]
+    case["span"] = [case["span"][0] + dt, case["span"][1] + dt]
+    case["shift"] = dt
 
 
 def brief(case):
@@ -954,19 +1050,6 @@ def run_pool(cases, workers, budget_s, note=None, stall_s=400, dead_s=150):
 
 
 # ============================================================================= the check
-def fix_timeouts(case):
-    """a run with the shape of D13 in lazy mode ends only when the mailbox timeout fires: keep that wait short"""
-    if case["cfg"]["proc"] == "threaded_mailbox" and d13_shape(case, set(case["stored"]), case["target"]):
-        case["cfg"]["timeout"] = 6
-    if case["prep_cfg"]["proc"] == "threaded_mailbox":
-        have = set()
-        for t in case["stored"]:
-            if d13_shape(case, have, t):
-                case["prep_cfg"]["timeout"] = 6
-            have.add(t)
-    return case
-
-
 def nontrivial_case(case, res):
     rows = res.get("rows") or []
     return bool(rows) and (any(len(s["chunks"]) > 1 for s in case["srcs"]) or bool(case["stored"])
@@ -978,16 +1061,33 @@ def branch_of(case, res):
     return f"{c['proc'][:6]}/w{c['workers']}/lazy{int(c['lazy'])}/stored{min(len(case['stored']), 3)}/{res['line'].split(' ')[0]}"
 
 
+def d13_corpus():
+    """40 cases of the shape of the fixed defect D13 (threaded processor, multi-output plugin with one output stored and
+    the sibling recomputed, a consumer of both); independent of VERIF_SEED; they must all pass"""
+    import random
+    rng = random.Random(7)
+    out = []
+    for _ in range(40):
+        c = gen_case(rng, force={"d13": True, "shift": False})
+        c["corpus"] = "d13"
+        out.append(c)
+    return out
+
+
 def gen_cases(ctx):
     n = ctx.pick(900, 9000)
-    cases = []
+    cases = d13_corpus()
     for i in range(n):
         force = None
         if i % 40 == 7:
             force = {"brick": True}
         elif i % 60 == 11:
             force = {"d13": True}
-        cases.append(fix_timeouts(gen_case(ctx.rng, quick=not ctx.thorough, force=force)))
+        elif i % 12 == 3:
+            force = {"exh": True}
+        elif i % 12 == 9:
+            force = {"ovl": True}
+        cases.append(gen_case(ctx.rng, quick=not ctx.thorough, force=force))
     return cases
 
 
@@ -1009,6 +1109,10 @@ def run(ctx):
             stats["kind:" + n["kind"]] += 1
         stats["mode:" + cases[i]["mode"]] += 1
         stats["sources:%d" % len(cases[i]["srcs"])] += 1
+        if "," in cases[i]["target"]:
+            stats["multi-target-request"] += 1
+        if cases[i].get("shift"):
+            stats["epoch-scale-times"] += 1
         if results[i]["prep"]:
             stats["with-twin-prep"] += 1
         if results[i].get("saved"):
@@ -1023,7 +1127,7 @@ def run(ctx):
             "pre-stored, or the threaded processor is used)")
     groups = {}
     for i in done:
-        groups.setdefault(shape_of(msgs[i]) or "", []).append(i)
+        groups.setdefault(shape_of(msgs[i]) or ("d13-corpus" if cases[i].get("corpus") else ""), []).append(i)
     for tag, idx in sorted(groups.items()):
         name = "e2e" if not tag else "e2e/" + tag
         sub = [dict(cases[i], _i=i) for i in idx]
@@ -1037,7 +1141,8 @@ def run(ctx):
     for i in done:
         res = results[i]
         if res.get("chunks") and res["line"].startswith("ok"):
-            law_cases.append(dict(span=cases[i]["span"], chunks=res["chunks"], what="yielded"))
+            law_cases.append(dict(span=cases[i]["span"], chunks=[[a, b, [r[:3] for r in rows]] for a, b, rows in res["chunks"]],
+                                  what="yielded"))
         for t, rec in sorted((res.get("saved") or {}).items()):
             if rec.get("chunks"):
                 law_cases.append(dict(span=cases[i]["span"], chunks=rec["chunks"], what="stored"))
